@@ -183,6 +183,7 @@ def run(c):
             if thorough or rng.random() < 0.25:
                 add("plain", pre + [0xFF, 0xFF] + [rng.randrange(256) for _ in range(65535)] + [rng.randrange(256) for _ in range(300)])
             add("plain", pre + [0xFF, 0xFF] + [1, 2, 3])                       # declares 64 KiB, delivers 3 octets
+            add("plain", hdr + body + [s["iei"], 0xFF, 0xFF] * 1000)          # ... a thousand times over: still ONE maximum-size element at most
             add("plain", pre + [0xFF, 0xFF])
             mx = min(s["max"], 65535)
             add("plain", pre + [mx >> 8, mx & 255] + [7] * 10)
